@@ -108,6 +108,9 @@ def handle (j : Json) : Except String Json := do
     if b == "mediumLinear" then pure (probJson (n'.vname old) (n'.mediumLinear ex (← ratOf j "min_obj")))
     else pure (probJson (n'.vname old) (n'.mediumMip ex (← ratOf j "min_obj") (n'.bigM ex)))
   | "fastcc" => pure (probJson nm (n.fastcc (← natsOf j "sub") (← ratOf j "thr") (← natsOf j "flip") (← (← j.getObjVal? "flipped").getBool?)))
+  | "loopless" =>
+    let ns ← (← (← j.getObjVal? "ns").getArr?).toList.mapM (fun r => do (← r.getArr?).toList.mapM (fun x => do parseRat (← x.getStr?)))
+    pure (probJson nm (n.loopless ns (← ratOf j "cutoff")))
   | _ => throw s!"unknown builder {b}"
 
 partial def loop (h : IO.FS.Stream) : IO Unit := do
